@@ -22,9 +22,12 @@ pub enum Shape {
     HollowArrays,
     /// maps whose innermost one is empty
     HollowMaps,
+    /// arrays; the outermost one first holds 1100 empty arrays and empty maps,
+    /// then the nest (collections seen earlier must not use up depth)
+    EmptiesFirst,
 }
 
-pub const SHAPES: [Shape; 7] = [Shape::Arrays, Shape::Maps, Shape::Alternating, Shape::Mixed, Shape::KeyPosition, Shape::HollowArrays, Shape::HollowMaps];
+pub const SHAPES: [Shape; 8] = [Shape::Arrays, Shape::Maps, Shape::Alternating, Shape::Mixed, Shape::KeyPosition, Shape::HollowArrays, Shape::HollowMaps, Shape::EmptiesFirst];
 
 impl Shape {
     pub fn name(self) -> &'static str {
@@ -36,6 +39,7 @@ impl Shape {
             Shape::KeyPosition => "key_position",
             Shape::HollowArrays => "hollow_arrays",
             Shape::HollowMaps => "hollow_maps",
+            Shape::EmptiesFirst => "empties_first",
         }
     }
     pub fn from_name(s: &str) -> Option<Shape> {
@@ -44,7 +48,7 @@ impl Shape {
     /// is level `i` (0 = outermost) a map?
     fn is_map(self, i: usize, depth: usize) -> bool {
         match self {
-            Shape::Arrays | Shape::HollowArrays => false,
+            Shape::Arrays | Shape::HollowArrays | Shape::EmptiesFirst => false,
             Shape::Maps | Shape::KeyPosition | Shape::HollowMaps => true,
             Shape::Alternating => i % 2 == 0,
             Shape::Mixed => {
@@ -69,6 +73,9 @@ pub fn nested_w(fmt: Fmt, shape: Shape, depth: usize, width: u8) -> Option<Vec<u
     }
     if matches!(shape, Shape::HollowArrays | Shape::HollowMaps) {
         return hollow(fmt, shape == Shape::HollowMaps, depth, width);
+    }
+    if shape == Shape::EmptiesFirst {
+        return empties_first(fmt, depth, width);
     }
     let mut out: Vec<u8> = vec![];
     match fmt {
@@ -145,6 +152,41 @@ pub fn nested_w(fmt: Fmt, shape: Shape, depth: usize, width: u8) -> Option<Vec<u
                 out.push(if shape.is_map(i, depth) { b'}' } else { b']' });
             }
             out.push(b'\n');
+        }
+    }
+    Some(out)
+}
+
+/// An array of `depth` levels whose outermost level starts with 1100 empty
+/// collections.
+fn empties_first(fmt: Fmt, depth: usize, width: u8) -> Option<Vec<u8>> {
+    const N: usize = 1100;
+    let mut out: Vec<u8> = vec![];
+    match fmt {
+        Fmt::Json | Fmt::Yaml | Fmt::Toml => {
+            // the plain nest of the same depth, with the empties spliced in after its first '['
+            let inner = nested_w(fmt, Shape::Arrays, depth, width)?;
+            let at = inner.iter().position(|b| *b == b'[')?;
+            out.extend_from_slice(&inner[..=at]);
+            for i in 0..N {
+                out.extend_from_slice(if i % 2 == 0 || fmt == Fmt::Toml { b"[]," } else { b"{}," });
+            }
+            if fmt == Fmt::Toml && depth == 1 {
+                return None;
+            }
+            out.extend_from_slice(&inner[at + 1..]);
+        }
+        Fmt::Msgpack => {
+            out.push(0xdc);
+            out.extend(((N + 1) as u16).to_be_bytes());
+            for i in 0..N {
+                out.push(if i % 2 == 0 { 0x90 } else { 0x80 });
+            }
+            if depth == 1 {
+                out.push(0x01);
+            } else {
+                out.extend(nested_w(Fmt::Msgpack, Shape::Arrays, depth - 1, width)?);
+            }
         }
     }
     Some(out)
@@ -266,6 +308,13 @@ pub fn nominal(fmt: Fmt) -> usize {
 
 /// Does the target accept this shape at all (depth 2)?
 fn target_accepts(fmt: Fmt, shape: Shape, to: Fmt) -> bool {
+    // the variants of plain nests are judged by the plain nest: a defect that makes
+    // the variant fail at depth 2 must not switch the variant off
+    let shape = match shape {
+        Shape::HollowArrays | Shape::EmptiesFirst => Shape::Arrays,
+        Shape::HollowMaps => Shape::Maps,
+        other => other,
+    };
     match nested(fmt, shape, 2) {
         Some(doc) => run_slice(&doc, Some(fmt), to).verdict.is_ok(),
         None => false,
